@@ -41,6 +41,9 @@ def run(chk):
     prog = chk.prog
     f = prog.func(f"{ST}:Structure.add_implicit_hydrogens")
     chk.analysed(f)
+    from ..canon import ifchain
+
+    f = ifchain(f, {"hs_to_add"})  # these rules read the placement dispatch as an if / elif chain
     chk.call(r1_only_hydrogens, chk, f)
     branches = chk.call(r2_pairing, chk, f)
     if branches is not chk.REFUSED:
